@@ -507,6 +507,8 @@ class HyperElastic(_Simu):
         Nn = self.mesh.Nn
 
         values = None
+        # results are stored at nodes unless the case below says otherwise
+        storedAtNodes = True
 
         if result in ["ux", "uy", "uz"]:
             values_n = self.displacement.reshape(Nn, -1)
@@ -549,6 +551,7 @@ class HyperElastic(_Simu):
 
         elif result == "W_e":
             values = self._Calc_W(False)
+            storedAtNodes = False
 
         elif result in ["Green-Lagrange", "Piola-Kirchhoff"] or (
             ("S" in result or "E" in result) and ("_norm" not in result)
@@ -577,6 +580,7 @@ class HyperElastic(_Simu):
                 result=res,
                 coef=self.material.coef,
             )
+            storedAtNodes = False
 
         else:
             Terminal.MyPrintError(f"The result '{result}' is not implemented yet.")
@@ -584,7 +588,7 @@ class HyperElastic(_Simu):
 
         # end cases ----------------------------------------------------
 
-        return self.Results_Reshape_values(values, nodeValues)
+        return self.Results_Reshape_values(values, nodeValues, storedAtNodes)
 
     def _Calc_W(self, returnScalar=True, matrixType=MatrixType.rigi):
         r"""Computes the hyperelastic strain energy.
